@@ -238,12 +238,15 @@ def campaign_ident(ck: Check, names: list[str]) -> None:
 
 
 # ---------------------------------------------------------------- campaign: get_valid_name
-def campaign_valid(ck: Check, names: list[str], label: str, cfgs: list[Cfg], chain: int = 3, timeout: float = 2.0) -> None:
+def campaign_valid(ck: Check, names: list[str], label: str, cfgs: list[Cfg], chain: int = 3, timeout: float = 1.0) -> None:
     camp = ck.campaign(f"names.valid (Model.Names.getValidName) vs the three real resolvers' get_valid_name [{label}]")
     t0 = time.time()
     rng = ck.rng.fork("valid" + label)
     cases = []
+    hangs = 0
     for name in names:
+        if hangs > 8 and timeout > 0.3:
+            break  # the real function hangs on many inputs: enough evidence, do not spend the budget on time-outs
         for kind in KIND_NAMES:
             for cfg in cfgs:
                 ign = rng.chance(1, 8)
@@ -256,13 +259,15 @@ def campaign_valid(ck: Check, names: list[str], label: str, cfgs: list[Cfg], cha
                     impl = real_valid(kind, cfg, name, excl if (excl or step) else None, ign, uc, timeout)
                     cases.append((kind, cfg, name, list(excl), ign, uc, impl))
                     if not impl.startswith("ok "):
+                        hangs += impl == "fuel"
                         break
                     excl = excl + [unhx(impl[3:])]
     reqs = [f"names.valid {k} {c.sx()} {hx(n)} {sx_list(e)} {int(i)} {int(u)}" for k, c, n, e, i, u, _ in cases]
     replies = ck.driver.run(reqs)
     for (kind, cfg, name, excl, ign, uc, impl), rep in zip(cases, replies):
         camp.evaluations += 1
-        inp = {"kind": kind, "cfg": cfg.label(), "name": name, "excludes": excl, "ignore_snake": ign, "upper_camel": uc}
+        inp = {"kind": kind, "cfg": cfg.label(), "name": name, "excludes": excl, "ignore_snake": ign, "upper_camel": uc,
+               "cfg_fields": dataclasses.asdict(cfg)}
         if cfg.uses_lower(ign) and "Σ" in name:
             camp.unmodelled += 1  # final-sigma context rule of str.lower()
             continue
@@ -474,8 +479,10 @@ def campaign_fold(ck: Check, n: int, names_pool: list[str]) -> None:
     member_cfg = lambda c: dataclasses.replace(c, cap=False)  # noqa: E731
     replies = ck.driver.run([f"names.fold pydantic {member_cfg(c).sx()} {sx_list(ns)}" for ns, c in cases])
     for (names, cfg), rep in zip(cases, replies):
+        if hung(ck):
+            break
         camp.evaluations += 1
-        inp = {"names": names, "cfg": cfg.label()}
+        inp = {"names": names, "cfg": cfg.label(), "cfg_fields": dataclasses.asdict(cfg)}
         if member_cfg(cfg).uses_lower() and any("Σ" in x for x in names):
             camp.unmodelled += 1
             continue
@@ -493,6 +500,8 @@ def campaign_fold(ck: Check, n: int, names_pool: list[str]) -> None:
             if any(f != n_ for (f, _), n_ in zip(dec, names)):
                 camp.distinct.add((tuple(names), cfg.label()))
             oracle_fields(ck, camp, inp, names, cfg, dec)
+        if impl_s1 == "fuel":
+            ck.fail({"oracle": "stage1_members", "mechanism": "hang", "prefix_ok": cfg.prefix_ok()}, inp, "parse_raw() did not return within 5 s")
         if rep != impl_fn:
             ck.disagree(camp, {**inp, "against": "resolver loop"}, decode_fold(rep), decode_fold(impl_fn))
         if rep != impl_s1:
@@ -605,6 +614,10 @@ def e2e_case(ck: Check, camp, names: list[str], cfg: Cfg, model: str, required: 
                 ck.fail({**base, "mechanism": "illegal_identifier"}, inp, f"member {p!r} is not a legal identifier")
             elif p.startswith("_") and cfg.prefix_ok() and model.startswith("pydantic"):
                 ck.fail({**base, "mechanism": "leading_underscore"}, inp, f"member {p!r} starts with an underscore")
+    if model == "typing.TypedDict" and not hit_alias_map and nested is None:
+        st1 = decode_fold(real_fold(names, dataclasses.replace(cfg, cap=False)))
+        if isinstance(st1, list):
+            TD_OBSERVED.append(([(f, n_) for (f, _), n_ in zip(st1, names)], "= TypedDict(" in res.code, inp))
     keeps_wire = model != "dataclasses.dataclass" and not cfg.noalias
     if keeps_wire:
         wire = sorted(w for _, w in members)
@@ -684,6 +697,26 @@ E2E_CORPUS = [
 ]
 
 
+TD_OBSERVED: list = []  # (pairs (member name, original), functional syntax observed?, input) of TypedDict outputs
+
+
+def campaign_typeddict_syntax(ck: Check) -> None:
+    camp = ck.campaign("names.tdfunc (Model.Names.tdFunctional) vs the syntax chosen by TypedDict.render in the e2e outputs")
+    t0 = time.time()
+    obs, TD_OBSERVED[:] = list(TD_OBSERVED), []
+    reqs = ["names.tdfunc (" + " ".join(f"({hx(f)} {hx(o)})" for f, o in pairs) + ")" for pairs, _, _ in obs]
+    for (pairs, functional, inp), rep in zip(obs, ck.driver.run(reqs)):
+        camp.evaluations += 1
+        camp.hit("functional" if functional else "class")
+        if any(f != o for f, o in pairs):
+            camp.distinct.add(tuple(pairs))
+        if rep != ("ok 1" if functional else "ok 0"):
+            ck.disagree(camp, inp, rep, "functional" if functional else "class")
+        elif len(camp.samples) < 2 and functional:
+            camp.samples.append({"members": pairs, "functional_syntax": functional})
+    camp.wall_s = time.time() - t0
+
+
 def campaign_e2e(ck: Check, n: int, names_pool: list[str]) -> None:
     camp = ck.campaign("e2e member oracle (real generate() → import → members legal, distinct, round trip under the original keys)")
     t0 = time.time()
@@ -693,6 +726,8 @@ def campaign_e2e(ck: Check, n: int, names_pool: list[str]) -> None:
         e2e_case(ck, camp, names, cfg, model)
     e2e_cfgs = [c for c in CFGS if c.delim != ""]
     for i in range(n):
+        if hung(ck):
+            break
         names = gen_prop_list(rng, ug, names_pool) if rng.chance(1, 2) else [gen_name(rng, ug, 4)]
         cfg = rng.choice(e2e_cfgs) if rng.chance(2, 3) else Cfg()
         if rng.chance(1, 8):
@@ -749,6 +784,12 @@ def search_names(ck: Check) -> None:
             return
 
 
+def hung(ck: Check) -> bool:
+    """an unexplained hang of the real code was already recorded: the verdict is settled, do not spend the
+    budget on further time-outs"""
+    return any(f.classification.get("mechanism") == "hang" for f in ck.failures)
+
+
 def run(ck: Check) -> None:
     quick = ck.tier == "quick"
     ck.translate("Unicode", uni.generate())
@@ -762,17 +803,22 @@ def run(ck: Check) -> None:
     ]
     rng = ck.rng.fork("names")
     ug = uni_groups()
-    names = list(dict.fromkeys(G_WORDS + G_CAMEL + [gen_name(rng, ug) for _ in range(1700 if quick else 12000)]))
+    names = list(dict.fromkeys(G_WORDS + G_CAMEL + [gen_name(rng, ug) for _ in range(2000 if quick else 12000)]))
     campaign_chars(ck, 3000 if quick else 60000)
     campaign_ident(ck, names)
     campaign_helpers(ck, names[: 1500 if quick else 12000])
     campaign_valid(ck, names, "adversarial names x 3 resolvers x option vectors", CFGS[:6] if quick else CFGS)
-    if quick:
+    if quick and not hung(ck):
         campaign_valid(ck, names[:250], "remaining option vectors", CFGS[6:])
-    campaign_valid(ck, small_scope(2 if quick else 3), "small scope: all names over the 14-symbol alphabet", CFGS[:5] if quick else CFGS)
-    campaign_valid(ck, ["1", "a", "_", "", "#", "-"], "non-identifier special prefixes (known finding D22)", CFGS_BAD_PREFIX, chain=1, timeout=0.5)
-    campaign_fold(ck, 500 if quick else 5000, names)
-    campaign_e2e(ck, 450 if quick else 5000, names)
+    if not hung(ck):
+        campaign_valid(ck, small_scope(2 if quick else 3), "small scope: all names over the 14-symbol alphabet", CFGS[:5] if quick else CFGS)
+    if not hung(ck):
+        campaign_valid(ck, ["1", "a", "_"], "non-identifier special prefixes (known finding D22)", CFGS_BAD_PREFIX, chain=1, timeout=0.2)
+    if not hung(ck):
+        campaign_fold(ck, 500 if quick else 5000, names)
+    if not hung(ck):
+        campaign_e2e(ck, 700 if quick else 6000, names)
+        campaign_typeddict_syntax(ck)
     ck.search_hooks.append(search_names)
     known_findings(ck)
 
@@ -781,10 +827,22 @@ def replay(ck: Check, path: str) -> int:
     data = json.loads(open(path).read())
     inp = data.get("input") or {}
     camp = ck.campaign("replay")
+    cf = inp.get("cfg_fields") or {}
+    cfg = Cfg(**{k: (tuple(map(tuple, v)) if k == "aliases" else v) for k, v in cf.items()})
     if "model" in inp and "names" in inp:
-        cf = inp.get("cfg_fields") or {}
-        cfg = Cfg(**{k: (tuple(map(tuple, v)) if k == "aliases" else v) for k, v in cf.items()})
         e2e_case(ck, camp, inp["names"], cfg, inp["model"], inp.get("required", False), inp.get("nested"))
+    elif "names" in inp:
+        dec = decode_fold(stage1_fields(inp["names"], cfg))
+        if isinstance(dec, list):
+            oracle_fields(ck, camp, inp, inp["names"], cfg, dec)
+        elif dec == "fuel":
+            ck.fail({"oracle": "stage1_members", "mechanism": "hang", "prefix_ok": cfg.prefix_ok()}, inp, "parse_raw() did not return")
+    elif "name" in inp:
+        impl = real_valid(inp["kind"], cfg, inp["name"], inp.get("excludes"), inp.get("ignore_snake", False), inp.get("upper_camel", False))
+        if impl.startswith("ok "):
+            oracle_name(ck, camp, inp["kind"], cfg, inp, unhx(impl[3:]), inp.get("excludes") or [], inp.get("upper_camel", False))
+        elif impl == "fuel":
+            ck.fail({"oracle": "get_valid_name", "mechanism": "hang", "prefix_ok": cfg.prefix_ok()}, inp, "get_valid_name did not return")
     for f in ck.failures:
         print("REPLAY-FAILS:", json.dumps(f.classification), f.observed[:300])
     if not ck.failures:
